@@ -111,7 +111,11 @@ def render(spec: dict, rng) -> list[str]:
     """one of the argv spellings of the spec; option order is seeded"""
     parts = []
     if spec.get("enable") is not None:
-        parts.append(["--enable"] + list(spec["enable"]))
+        en = list(spec["enable"])
+        if len(en) == 1 and rng.random() < 0.3:
+            parts.append([f"--enable={en[0]}"])
+        else:
+            parts.append(["--enable"] + en)
     for key, opt in (("inp", "--input-predicates"), ("out", "--output-predicates")):
         v = spec.get(key, "ABSENT")
         if v == "ABSENT":
